@@ -151,7 +151,11 @@ func ruleOffsetWiring(rule string) func(*Ctx) {
 		// InflatePaths64 passes cfg.miterLimit, cfg.arcTolerance in that order
 		g := c.fn("InflatePaths64")
 		bad = "no NewClipperOffset call"
-		for _, ci := range callsTo(c, g, "NewClipperOffset") {
+		gh := g
+		if h := fnWithCallsTo(c, g, "NewClipperOffset", 0); h != nil {
+			gh = h // the construction may have moved into a helper shared with InflatePathsD
+		}
+		for _, ci := range callsTo(c, gh, "NewClipperOffset") {
 			bad = ""
 			sig := ci.Common().StaticCallee().Signature
 			for i, a := range ci.Common().Args {
@@ -473,6 +477,16 @@ func ruleBoundsEmpty(rule string) func(*Ctx) {
 					bad = "the zero rectangle is returned under [" + tail(p.condString(), 120) + "], which is not 'no vertex was seen' (accumulator still at its sentinel, or len(path) == 0)"
 				}
 			}
+			if n == 0 && bad == "" {
+				for _, p := range outs {
+					if p.end == "return" && len(p.ret) == 1 && (strings.HasPrefix(p.ret[0].expr, "getBounds(") || strings.HasPrefix(p.ret[0].expr, "GetBounds64(")) {
+						n++ // the answer, empty case included, is the other routine's, which is checked
+					}
+				}
+				if n == 0 {
+					bad = "no return of the zero rectangle found (what is answered for an empty path?)"
+				}
+			}
 			c.check(bad == "" && n > 0, rule, fmt.Sprintf("%s:%s:empty-result", rule, name), f.Pos(), name,
 				"the zero rectangle is returned only when no vertex was seen", bad,
 				"a single point, a vertical or a horizontal run has zero width or height but well-defined exact extremes")
@@ -648,9 +662,71 @@ func ruleCyclicPred(rule string, fns []string, min int, why string) func(*Ctx) {
 				c.check(bad == "", rule, fmt.Sprintf("%s:%s:wrap#%d", rule, fn, n), ifi.Cond.Pos(), fn,
 					fmt.Sprintf("%s[i-1] for i > 0, %s[len-1] for i == 0", valueName(X), valueName(X)), bad, why)
 			}
+			// the modular form: X[(i + len(X) - 1) % len(X)]
+			for _, b := range f.Blocks {
+				for _, in := range b.Instrs {
+					ia, ok := in.(*ssa.IndexAddr)
+					if !ok {
+						continue
+					}
+					rem, ok := ia.Index.(*ssa.BinOp)
+					if !ok || rem.Op != token.REM {
+						continue
+					}
+					modIsLen := isLenOfSlice(rem.Y, ia.X)
+					vars, lens, k, lin := 0, 0, int64(0), true
+					var walk func(v ssa.Value, sign int64)
+					walk = func(v ssa.Value, sign int64) {
+						if bo, ok := v.(*ssa.BinOp); ok && (bo.Op == token.ADD || bo.Op == token.SUB) {
+							walk(bo.X, sign)
+							if bo.Op == token.SUB {
+								walk(bo.Y, -sign)
+							} else {
+								walk(bo.Y, sign)
+							}
+							return
+						}
+						if kc, ok := v.(*ssa.Const); ok && kc.Value != nil {
+							k += sign * kc.Int64()
+							return
+						}
+						if (modIsLen && isLenOfSlice(v, ia.X)) || v == rem.Y {
+							lens += int(sign)
+							return
+						}
+						if sign != 1 {
+							lin = false
+						}
+						vars++
+					}
+					walk(rem.X, 1)
+					if !lin || lens != 1 || vars != 1 {
+						continue
+					}
+					n++
+					badm := ""
+					if k != -1 {
+						badm = fmt.Sprintf("the cyclic neighbour is read at offset %d (mod len), not at the predecessor", k)
+					} else if !modIsLen {
+						badm = fmt.Sprintf("the predecessor index wraps modulo %s, which is not len(%s): for index 0 it is not the last element", valueName(rem.Y), valueName(ia.X))
+					}
+					c.check(badm == "", rule, fmt.Sprintf("%s:%s:wrap#%d", rule, fn, n), ia.Pos(), fn,
+						fmt.Sprintf("%s[(i+len-1) %% len]: the element before index 0 is the last one", valueName(ia.X)), badm, why)
+				}
+			}
 		}
 		c.floor(rule, n, min)
 	}
+}
+
+// isLenOfSlice: v is len(X) for the same slice X (same value, same parameter or the same local).
+func isLenOfSlice(v ssa.Value, X ssa.Value) bool {
+	call, ok := v.(*ssa.Call)
+	if !ok {
+		return false
+	}
+	bi, ok := call.Call.Value.(*ssa.Builtin)
+	return ok && bi.Name() == "len" && len(call.Call.Args) == 1 && sameSlice(call.Call.Args[0], X)
 }
 
 func sameIntValue(a, b ssa.Value) bool {
@@ -879,13 +955,121 @@ func ruleInvalidateFlag(rule, typ, data, flag string, min int, why string) func(
 							ok = true
 						}
 					}
+					if !ok {
+						ok = clearedAfter(c, in, typ, flag, data)
+					}
 					c.check(ok, rule, fmt.Sprintf("%s:%s:%s#%d", rule, c.fname(f), data, k), in.Pos(), c.fname(f),
 						what+" after "+flag+" = false", what+" without setting "+flag+" = false first: the next run believes the list is still in the order of the previous run", why)
 				}
 			}
 		}
 		c.floor(rule, n, min)
+		// the flag is only ever assigned a constant: false where the list may have grown, true right after sorting.
+		// (`flag = len(list) == before` sets it TRUE for an unsorted list to which nothing was added.)
+		for _, f := range c.srcFuncs() {
+			for i, st := range fieldStoresIn(c, f, typ)[flag] {
+				b, isConst := constBool(st.Val)
+				bad := ""
+				if !isConst {
+					bad = flag + " is assigned a computed value: a call that adds nothing must leave the flag as it is, not set it"
+				} else if b {
+					sorted := false
+					for _, ci := range calls(f) {
+						if n := calleeName(c, ci); (strings.HasPrefix(n, "sort.") || strings.HasPrefix(n, "slices.Sort")) && precedes(ci, st) {
+							sorted = true
+						}
+					}
+					if !sorted {
+						bad = flag + " is set to true without the list having been sorted in the same function"
+					}
+				}
+				c.check(bad == "", rule, fmt.Sprintf("%s:%s:%s-const#%d", rule, c.fname(f), flag, i+1), st.Pos(), c.fname(f),
+					flag+" is assigned a constant (false on growth, true after the sort)", bad, why)
+			}
+		}
 	}
+}
+
+// clearedAfter: every path from the growth site to a return passes an instruction that clears the flag: a store of
+// the constant false, or a call to a helper the reference record does not know every return path of which stores
+// false or has found that the list did not grow (a test of len(list)).
+func clearedAfter(c *Ctx, site ssa.Instruction, typ, flag, data string) bool {
+	f := site.Parent()
+	clearing := func(in ssa.Instruction) bool {
+		switch x := in.(type) {
+		case *ssa.Store:
+			if fa, ok := x.Addr.(*ssa.FieldAddr); ok && typeName(fa.X.Type()) == "*"+typ && fieldName(fa.X.Type(), fa.Field) == flag {
+				b, isConst := constBool(x.Val)
+				return isConst && !b
+			}
+		case ssa.CallInstruction:
+			h := x.Common().StaticCallee()
+			if h == nil || !c.freshFunc(h) || !loopFree(h) {
+				return false
+			}
+			ex := &explorer{c: c, f: h, maxPaths: 500}
+			outs := ex.explore(nil)
+			if ex.overflow || len(outs) == 0 {
+				return false
+			}
+			for _, p := range outs {
+				if p.end != "return" {
+					continue
+				}
+				ok := false
+				for _, sr := range p.stores {
+					if strings.HasSuffix(sr.addr, "."+flag) {
+						ok = sr.val.abs.k == aBool && !sr.val.abs.b
+					}
+				}
+				if !ok {
+					for _, cd := range p.conds {
+						if strings.Contains(cd.expr, "len(") && strings.Contains(cd.expr, "."+data) {
+							ok = true // the helper found the list no longer than before
+						}
+					}
+				}
+				if !ok {
+					return false
+				}
+			}
+			return true
+		}
+		return false
+	}
+	// forward search from the site: can a return be reached without passing a clearing instruction?
+	type pos struct {
+		b *ssa.BasicBlock
+		i int
+	}
+	start := pos{site.Block(), instrIndex(site) + 1}
+	seen := map[*ssa.BasicBlock]bool{}
+	work := []pos{start}
+	for len(work) > 0 {
+		p := work[len(work)-1]
+		work = work[:len(work)-1]
+		blocked := false
+		for j := p.i; j < len(p.b.Instrs); j++ {
+			if clearing(p.b.Instrs[j]) {
+				blocked = true
+				break
+			}
+			if _, isRet := p.b.Instrs[j].(*ssa.Return); isRet {
+				return false
+			}
+		}
+		if blocked {
+			continue
+		}
+		for _, sb := range p.b.Succs {
+			if !seen[sb] {
+				seen[sb] = true
+				work = append(work, pos{sb, 0})
+			}
+		}
+	}
+	_ = f
+	return true
 }
 
 // stickyOr: the stored value is `flag || x`: a phi of the constant true (taken when the flag's own current value is
@@ -1767,7 +1951,7 @@ func ruleArcSignFollowsGroup(rule string) func(*Ctx) {
 				n++
 				reads := func(v ssa.Value) bool {
 					bo, ok := v.(*ssa.BinOp)
-					return ok && (isFieldLoadOf(bo.X, "ClipperOffset", "groupDelta") || isFieldLoadOf(bo.Y, "ClipperOffset", "groupDelta"))
+					return ok && (isGroupDelta(c, bo.X) || isGroupDelta(c, bo.Y))
 				}
 				ok2 := guardedBy(st, true, reads) || guardedBy(st, false, reads)
 				c.check(ok2, rule, fmt.Sprintf("%s:%s:negation#%d", rule, c.fname(f), n), st.Pos(), c.fname(f),
@@ -1957,7 +2141,9 @@ func fnWithCallsTo(c *Ctx, root *ssa.Function, callee string, depth int) *ssa.Fu
 func ruleSegIntersectMirrorSem(rule string) func(*Ctx) {
 	return func(c *Ctx) {
 		f := c.fn("getSegmentIntersection")
-		ex := &explorer{c: c, f: f, canon: canonParams(f, "p1", "p2", "p3", "p4"), maxPaths: 20000}
+		// pureMemo: `res1 == 0` written twice (case res1 == 0 && res2 == 0: ... case res1 == 0:) is two SSA values
+		// (go/ssa has no CSE) but one fact
+		ex := &explorer{c: c, f: f, canon: canonParams(f, "p1", "p2", "p3", "p4"), maxPaths: 20000, pureMemo: true}
 		outs := ex.explore(nil)
 		if ex.overflow {
 			fatalf("getSegmentIntersection: path explosion")
@@ -2072,7 +2258,9 @@ func ruleInsideArmStrict(rule string) func(*Ctx) {
 		}
 		locP := param(f, "loc", 2)
 		// the blocks that set *loc and break are outside the natural loop: explore on to the function's return
-		ex := &explorer{c: c, f: f, maxPaths: 4000, pureMemo: true}
+		// getLocation (a recorded function) is read inline: an arm that delegates to it is judged by what it does with
+		// both results
+		ex := &explorer{c: c, f: f, maxPaths: 4000, pureMemo: true, inline: map[string]bool{"getLocation": true}}
 		outs := ex.explore(ll.header)
 		want := map[string][3]string{ // side -> coordinate, rect field, strict operator (point on the left)
 			"Left": {".X", ".left", "<"}, "Right": {".X", ".right", ">"}, "Top": {".Y", ".top", "<"}, "Bottom": {".Y", ".bottom", ">"},
@@ -2153,4 +2341,222 @@ func ruleInsideArmStrict(rule string) func(*Ctx) {
 			fatalf("%s: path budget exceeded", rule)
 		}
 	}
+}
+
+// ruleZeroLengthHorz: C03 — a horizontal edge whose bottom and top have the same X (a spike that ran out and straight
+// back) has no direction of its own: resetHorzDirection must be able to answer from where the maxima pair lies in the
+// AEL. With `bot.X == top.X` assumed, at least one return path yields a direction that is not a constant.
+func ruleZeroLengthHorz(rule string) func(*Ctx) {
+	return func(c *Ctx) {
+		f := c.fn("resetHorzDirection")
+		ex := &explorer{c: c, f: f, maxPaths: 4000, pureMemo: true, canon: canonParams(f, "horz", "vertexMax"),
+			atomFn: func(e string) (absVal, bool) {
+				if strings.Contains(e, " == ") && strings.Contains(e, ".top.X") && (strings.Contains(e, ".bot.X") || strings.Contains(e, ".curX")) {
+					return boolVal(true), true
+				}
+				return absVal{}, false
+			}}
+		outs := ex.explore(f.Blocks[0])
+		if ex.overflow {
+			fatalf("%s: path budget exceeded", rule)
+		}
+		rets, dyn := 0, 0
+		for _, p := range outs {
+			if p.end != "return" || len(p.ret) == 0 {
+				continue
+			}
+			rets++
+			// decided by the scan: the direction is not a constant, or the path tested an edge against vertexMax
+			scan := p.ret[len(p.ret)-1].abs.k != aBool
+			for _, cd := range p.conds {
+				if mentions(cd.expr, "vertexMax") {
+					scan = true
+				}
+			}
+			if scan {
+				dyn++
+			}
+		}
+		c.check(dyn > 0, rule, rule+":resetHorzDirection:zero-length", f.Pos(), "resetHorzDirection",
+			"for a horizontal with bot.X == top.X the heading is taken from the position of the maxima pair in the AEL",
+			fmt.Sprintf("with bot.X == top.X assumed, none of the %d return paths looks for vertexMax in the AEL; the direction is a constant: a zero-length horizontal whose maxima pair lies on the other side never meets it", rets),
+			"zero-length horizontals arise when a horizontal runs out and straight back over itself; heading away from the maxima pair, the edge is pushed past its local maximum and the sweep does not terminate")
+	}
+}
+
+// isGroupDelta: v is the field ClipperOffset.groupDelta, or a parameter of a helper the reference record does not
+// know to which EVERY call site passes that field (the set-up of the arc step extracted into a helper).
+func isGroupDelta(c *Ctx, v ssa.Value) bool {
+	if isFieldLoadOf(v, "ClipperOffset", "groupDelta") {
+		return true
+	}
+	pr, ok := v.(*ssa.Parameter)
+	if !ok || !c.freshFunc(pr.Parent()) {
+		return false
+	}
+	idx := -1
+	for i, q := range pr.Parent().Params {
+		if q == pr {
+			idx = i
+		}
+	}
+	sites := 0
+	for _, f := range c.srcFuncs() {
+		for _, ci := range calls(f) {
+			if ci.Common().StaticCallee() != pr.Parent() {
+				continue
+			}
+			sites++
+			if idx >= len(ci.Common().Args) || !isFieldLoadOf(ci.Common().Args[idx], "ClipperOffset", "groupDelta") {
+				return false
+			}
+		}
+	}
+	return sites > 0
+}
+
+// ruleSolutionReplaced: C12 — an Execute call REPLACES what the caller's solution slices held: on every path to a
+// return, each *Paths64 / *PathsD result parameter has been truncated (`*p = (*p)[:0]`) or overwritten with a slice
+// not derived from it — directly, or by a callee that does so with the parameter on all of its paths. Otherwise the
+// answer of the previous execution shows through whenever the new answer is empty.
+func ruleSolutionReplaced(rule string, fns []string) func(*Ctx) {
+	return func(c *Ctx) {
+		memo := map[string]int{}
+		n := 0
+		for _, fn := range fns {
+			f := c.fn(fn)
+			for i, p := range f.Params {
+				if tn := typeName(p.Type()); tn != "*Paths64" && tn != "*PathsD" {
+					continue
+				}
+				n++
+				ok := mustTruncParam(c, f, i, memo, 0)
+				c.check(ok, rule, fmt.Sprintf("%s:%s:%s", rule, fn, p.Name()), f.Pos(), fn,
+					"*"+p.Name()+" is truncated or replaced on every path to a return",
+					"a return can be reached with *"+p.Name()+" neither truncated nor replaced: when this execution's answer for that slot is empty (or the execution fails) the caller keeps the previous answer",
+					"the result of Execute depends only on the paths added and the parameters, not on what the solution variable held before (C12: reusing an engine and its solution slices gives the result of a fresh run)")
+			}
+		}
+		c.floor(rule, n, 8)
+	}
+}
+
+// mustTruncParam: on every path from f's entry to a return, the slice behind pointer parameter idx is emptied.
+func mustTruncParam(c *Ctx, f *ssa.Function, idx int, memo map[string]int, depth int) bool {
+	if f == nil || f.Blocks == nil || idx >= len(f.Params) {
+		return false
+	}
+	key := fmt.Sprintf("%s#%d", c.rawName(f), idx)
+	switch memo[key] {
+	case 1:
+		return true
+	case 2, 3:
+		return false
+	}
+	if depth > 4 {
+		return false
+	}
+	memo[key] = 3
+	p := f.Params[idx]
+	derived := func(v ssa.Value) bool { // v is computed from *p (re-slice, append to it)
+		seen := map[ssa.Value]bool{}
+		var walk func(v ssa.Value) bool
+		walk = func(v ssa.Value) bool {
+			if seen[v] {
+				return false
+			}
+			seen[v] = true
+			switch x := v.(type) {
+			case *ssa.UnOp:
+				return x.Op == token.MUL && x.X == ssa.Value(p)
+			case *ssa.Slice:
+				return walk(x.X)
+			case *ssa.Phi:
+				for _, e := range x.Edges {
+					if walk(e) {
+						return true
+					}
+				}
+			case *ssa.Call:
+				if bi, ok := x.Call.Value.(*ssa.Builtin); ok && bi.Name() == "append" {
+					return walk(x.Call.Args[0])
+				}
+			}
+			return false
+		}
+		return walk(v)
+	}
+	gen := func(in ssa.Instruction) bool {
+		switch x := in.(type) {
+		case *ssa.Store:
+			if x.Addr != ssa.Value(p) {
+				return false
+			}
+			if sl, ok := x.Val.(*ssa.Slice); ok && derived(sl.X) {
+				k, isK := sl.High.(*ssa.Const)
+				return isK && k.Int64() == 0 // (*p)[:0]
+			}
+			return !derived(x.Val) // replaced by something that is not the old contents
+		case ssa.CallInstruction:
+			g := x.Common().StaticCallee()
+			if g == nil || !c.inRepo(g) {
+				return false
+			}
+			args := x.Common().Args
+			for k, a := range args {
+				if a == ssa.Value(p) && k < len(g.Params) && mustTruncParam(c, g, k, memo, depth+1) {
+					return true
+				}
+			}
+		}
+		return false
+	}
+	in := map[*ssa.BasicBlock]bool{}
+	out := map[*ssa.BasicBlock]bool{}
+	genB := map[*ssa.BasicBlock]bool{}
+	for _, b := range f.Blocks {
+		in[b], out[b] = true, true
+		for _, ins := range b.Instrs {
+			if gen(ins) {
+				genB[b] = true
+			}
+		}
+	}
+	in[f.Blocks[0]] = false
+	out[f.Blocks[0]] = genB[f.Blocks[0]]
+	for changed := true; changed; {
+		changed = false
+		for _, b := range f.Blocks {
+			ni := b != f.Blocks[0]
+			if ni {
+				for _, pr := range b.Preds {
+					ni = ni && out[pr]
+				}
+			}
+			no := ni || genB[b]
+			if ni != in[b] || no != out[b] {
+				in[b], out[b] = ni, no
+				changed = true
+			}
+		}
+	}
+	ok, rets := true, 0
+	for _, b := range f.Blocks {
+		if len(b.Instrs) == 0 {
+			continue
+		}
+		if _, isRet := b.Instrs[len(b.Instrs)-1].(*ssa.Return); isRet {
+			rets++
+			if !out[b] {
+				ok = false
+			}
+		}
+	}
+	ok = ok && rets > 0
+	if ok {
+		memo[key] = 1
+	} else {
+		memo[key] = 2
+	}
+	return ok
 }
